@@ -313,6 +313,17 @@ impl Aggregate {
 /// Case timeout (wall clock): a safety net for loops that neither terminate
 /// nor poll. Verdict-producing budgets are all in simulated steps.
 const CASE_TIMEOUT: Duration = Duration::from_secs(180);
+/// The thorough tiers run contract-sized programs under several dozen
+/// schedules per case; their slowest legitimate cases take 100-160 s of CPU
+/// on a loaded machine, so the safety net sits higher there.
+const CASE_TIMEOUT_THOROUGH: Duration = Duration::from_secs(600);
+
+fn case_timeout(tier: Tier) -> Duration {
+    match tier {
+        Tier::Quick => CASE_TIMEOUT,
+        Tier::Thorough => CASE_TIMEOUT_THOROUGH,
+    }
+}
 /// Stop handing out cases after this many violations outside the known list.
 const ENOUGH_VIOLATIONS: usize = 60;
 /// Set while dumping findings (a maintenance run wants all of them).
@@ -375,7 +386,7 @@ pub fn run_pool_with(check: &'static dyn Check, tier: Tier, base: u64, n_workers
                     });
                     reader
                 });
-                match lrx.recv_timeout(CASE_TIMEOUT) {
+                match lrx.recv_timeout(case_timeout(tier)) {
                     Ok(Some(line)) => {
                         w.stdout = t.join().unwrap();
                         if let Some(js) = line.strip_prefix("DONE ") {
@@ -415,7 +426,7 @@ pub fn run_pool_with(check: &'static dyn Check, tier: Tier, base: u64, n_workers
                         let _ = tx.send(WorkerEvent::Crashed(
                             idx,
                             seed,
-                            format!("no answer within {} s of wall time (hang outside any polled loop)", CASE_TIMEOUT.as_secs()),
+                            format!("no answer within {} s of wall time (hang outside any polled loop)", case_timeout(tier).as_secs()),
                         ));
                         w = spawn_worker(&id, tier, &exe);
                     }
@@ -757,11 +768,12 @@ pub fn replay_main(checks: &[&'static dyn Check], path: &str) -> i32 {
                     return 1;
                 }
                 Ok(None) => {
-                    if t0.elapsed() > CASE_TIMEOUT {
+                    let limit = if tier == "thorough" { CASE_TIMEOUT_THOROUGH } else { CASE_TIMEOUT };
+                    if t0.elapsed() > limit {
                         let _ = child.kill();
                         let _ = child.wait();
                         println!("VIOLATION property={} replay={}", body["property"].as_str().unwrap_or("C03"), path);
-                        println!("  signature: process:no answer within {} s", CASE_TIMEOUT.as_secs());
+                        println!("  signature: process:no answer within {} s", limit.as_secs());
                         return 1;
                     }
                     std::thread::sleep(Duration::from_millis(50));
